@@ -6,6 +6,8 @@ import (
 	"bytes"
 	"fmt"
 
+	"github.com/mit-pdos/go-journal/common"
+	"github.com/mit-pdos/go-journal/jrnl"
 	"github.com/mit-pdos/go-nfsd/fh"
 	"github.com/mit-pdos/go-nfsd/nfs"
 	"github.com/mit-pdos/go-nfsd/util/timed_disk"
@@ -59,8 +61,20 @@ func StartSrv(d *CDisk, o SrvOpts) *Srv {
 
 func (s *Srv) WaitIdle() { s.N.VerifShrinker().VerifWaitIdle() }
 
-// Flush forces everything appended to the journal so far to disk.
-func (s *Srv) Flush() { s.N.VerifFsState().Txn.Flush() }
+// Flush forces everything appended to the journal so far to disk.  Not
+// obj.Log.Flush: that flushes up to a saved position which go-journal resets
+// to 0 whenever it rejects a transaction (it then flushes nothing).  Instead
+// a transaction that rewrites the reserved, unused inode 0 with its own bytes
+// is committed with wait: the log is written in order, so everything before
+// it is durable when it returns, and nothing changes logically.
+func (s *Srv) Flush() {
+	st := s.N.VerifFsState()
+	op := jrnl.Begin(st.Txn)
+	a := st.Super.Inum2Addr(0)
+	b := op.ReadBuf(a, common.INODESZ*8)
+	op.OverWrite(a, common.INODESZ*8, append([]byte{}, b.Data...))
+	op.CommitWait(true)
+}
 
 func (s *Srv) Shutdown() {
 	if s.stub != nil {
